@@ -107,8 +107,10 @@ def run(chk):
         iv, mv = impl_view(r), model_view(m)
         if len(chk.cov["samples"]) < 4 and nontrivial and f["depth"] > 0:
             chk.sample({"machine": c["machine"], "input": c["input"], "plans": c["plans"], "impl": iv, "model": mv})
-        if m.get("multiFail") and iv["status"] == "FAILED" and mv["status"] == "FAILED":
-            chk.dist("multifail.status_only")      # which branch fails first depends on timing: error name not compared
+        if m.get("multiFail"):
+            # several branches of one fan-out fail: which one fails first (and hence whether the failure is retried /
+            # caught) depends on timing, which the reference semantics does not model — C06 covers these families
+            chk.dist("multifail.not_compared")
             continue
         if r.status not in ("SUCCEEDED", "FAILED"):
             chk.report("impl-differs-from-spec", case, impl=dict(iv, quiescent=r.quiescent, volatile=r.volatile),
